@@ -58,7 +58,8 @@ try:
         shutil.copy(os.path.join(src, "patch.diff"), d)
         for f in os.listdir(os.path.join(src, "demo")):
             shutil.copy(os.path.join(src, "demo", f), d + "/demo")
-        meta = json.load(open(os.path.join(src, "meta.json")))
+        mp = os.path.join(src, "meta.json")
+        meta = json.load(open(mp)) if os.path.exists(mp) else dict(summary=run[:1500], note="author's meta.json missing; summary = head of demo/RUN.md")
         meta.update(dict(property=prop, seed=sid, confirmed_by="bin/seedverify.py in a scratch worktree of /repo HEAD: demo passes without / fails with the change, builds with and without -tags verif",
                          demo_cmd=tcmd, stable_suite_by_author=meta.get("stable_suite", "")))
         json.dump(meta, open(d + "/meta.json", "w"), indent=1)
